@@ -73,6 +73,15 @@ def build(kind):
         raise KeyError(kind)
     S = elfi.Summary(ident, Y, model=m, name='S')
     elfi.Distance('euclidean', S, model=m, name='d')
+    # the support itself (where the density is positive in exact arithmetic): a float density can underflow to 0 deep in
+    # the tail of a normal conditional (|z| > 38) although the point is inside the support
+    prior.support = {
+        'bounded': lambda th: (th[:, 0] >= 0) & (th[:, 0] <= 4),
+        'unbounded': lambda th: np.isfinite(th[:, 0]),
+        'hier': lambda th: np.isfinite(th[:, 0]) & (th[:, 1] >= 0) & (th[:, 1] <= 3),
+        'two': lambda th: np.isfinite(th[:, 0]) & (th[:, 1] >= -1) & (th[:, 1] <= 2),
+        'hier-scale': lambda th: np.isfinite(th[:, 0]) & (th[:, 1] > 0) & (th[:, 1] <= 2),
+    }[kind]
     return m, prior
 
 
@@ -142,8 +151,9 @@ def judge_populations(case, res, prior, calls, prev_pops=0):
         if float(np.asarray(pop.threshold).ravel()[-1]) != float(d.max()):
             return ('C07:population-threshold-not-largest-discrepancy', dict(info, threshold=float(pop.threshold)))
         pr = prior(params)
-        if not np.all(pr > 0):
-            return ('C07:particle-outside-prior-support', dict(info, params=params[pr <= 0].tolist()))
+        ins = prior.support(params)
+        if not np.all(ins):
+            return ('C07:particle-outside-prior-support', dict(info, params=params[~ins].tolist()))
         if i == 0:
             if not np.all(w == 1):
                 return ('C07:first-population-weights-not-one', dict(info, weights=w.tolist()))
